@@ -239,6 +239,25 @@ CLAIMS = {
             "hash orders are sampled by launching processes (the evidence reports how many distinct orders were observed); "
             "one project family",
             "DESIGN.md section 3 C13"),
+    "C08": ("model_checking",
+            "TLA+ model of the replaced range (FixEdit.tla: the three range computations of the code, StopBy over siblings) "
+            "enumerated by TLC over array layouts x expansion rules (MC_C08); every case and a corpus of rule families "
+            "replayed through scan --json, -U, sg test snapshots, the library calls and the language server's quick-fix / "
+            "fix-all / applyAllFixes; Trace_C08 recomputes the required edit from the real tree's siblings and compares",
+            "FixEdit.tla states the edit of a match as a function of the matched node, the matcher's match length, the "
+            "siblings on both sides with the verdict of the expansion rule on each, and the stopBy mode; MC_C08 checks "
+            "well-formedness facts of that function (an expansion never shrinks the node, stays in bounds, no expansion = "
+            "node) for all arrays of <=3 (quick) / <=4 (thorough) elements x 25 expansion combinations and shows that the "
+            "two other range computations present in the code (default trait body, node range) differ exactly when "
+            "something expands. Each exported case is built as real JavaScript and pushed through 9 front-end routes; ten "
+            "hand-written rule families (string/object fix, trimming patterns, expandStart/End, stopBy end) run in 7 "
+            "languages with CRLF/multi-byte/astral texts; `sg run -p -r` covers trailing-punctuation trimming. The trace "
+            "spec rebuilds the required edit from the recorded siblings of the real tree, so a front end taking another "
+            "route to its range is reported, and a DRIFT line is printed when the model's sibling layout and the real tree "
+            "disagree.",
+            "expansion rules are regex/kind rules without metavariables and without stopBy-rule; which of two intersecting "
+            "edits an applying front end keeps is left to C06/C18",
+            "DESIGN.md section 3 C08"),
     "C09": ("model_checking",
             "TLC model of the language server's concurrent notification handlers (Lsp.tla: one action per stretch of code "
             "between two awaits) checked exhaustively within bounds; histories exported by the model and random longer ones "
